@@ -324,6 +324,10 @@ func ruleTX1(c *Ctx) []Ob {
 
 // provablyNonNil: value v (an error) cannot be nil when block b executes.
 func (c *Ctx) provablyNonNil(fn *ssa.Function, v ssa.Value, b *ssa.BasicBlock) bool {
+	// the value itself (a variable merged from several assignments) was found not nil on the way
+	if vi, ok := v.(ssa.Instruction); ok && vi.Parent() == fn && guardedBy(fn, b, nonNilEdges(fn, sameValue(v))) {
+		return true
+	}
 	for _, o := range origins(v) {
 		ok := false
 		if g := globalLoad(o); g != nil && isErrorType(g.Type().(*types.Pointer).Elem()) {
@@ -337,6 +341,35 @@ func (c *Ctx) provablyNonNil(fn *ssa.Function, v ssa.Value, b *ssa.BasicBlock) b
 		}
 		if !ok && o.Parent() == fn && guardedBy(fn, b, nonNilEdges(fn, sameValue(o))) {
 			ok = true
+		}
+		// what a library helper answers: each of its results is non-nil by itself, or is a parameter
+		// that is given a non-nil value here
+		if call, isCall := o.(*ssa.Call); isCall && !ok && o.Parent() == fn {
+			if g := staticCallee(call); g != nil && c.IsLib(c.declared(g)) && len(c.declared(g).Blocks) > 0 && c.declared(g) != fn && g.Signature.Results().Len() == 1 {
+				g = c.declared(g)
+				all, any := true, false
+				for _, ret := range returnsOf(g) {
+					rv, has := returnedValue(ret, 0)
+					if !has {
+						all = false
+						continue
+					}
+					any = true
+					if p, isP := rv.(*ssa.Parameter); isP {
+						if pi := paramIndex(g, p); pi >= 0 && pi < len(call.Call.Args) && c.provablyNonNil(fn, call.Call.Args[pi], call.Block()) {
+							continue
+						}
+						all = false
+						continue
+					}
+					if !c.provablyNonNil(g, rv, ret.Block()) {
+						all = false
+					}
+				}
+				if all && any {
+					ok = true
+				}
+			}
 		}
 		// a second load of the same field (v.err tested, then v.err returned)
 		if !ok && o.Parent() == fn {
